@@ -13,16 +13,29 @@ with its own recursive functions: `Wrap.wrap` (C02) / `Text.render` (C05) for te
 the same as measuring the lines `Segment.split_lines` yields.
 
 The domain.  `Dom cfg r opts w` (Lemmas/LayoutBase.lean) spells out where the statement applies to a renderable whose lines reach the
-output uncropped; containers that crop what they are given (padding, panel, table, columns, tree) put NO condition on their children:
-* text: not `overflow="ignore"` (the documented opt-out of fitting), `end` is the line feed;
-* `Constrain` / `Align` render their child at a narrower width: that width is still at or above the child's structural minimum;
+output uncropped; containers that crop what they are given (padding, panel, table, columns, tree) put NO condition on their children.
+Every exclusion is justified below by a witness on the model (section "Why each exclusion is there") or marked as not discharged:
+* text / `str`: not `overflow="ignore"` (`excluded_overflow_ignore`), `end` is the line feed or empty (`excluded_text_end`);
 * group: every member but the last ends its line — a `ProgressBar` never does (known finding F23 `progressbar-no-newline`:
-  `known_progressbar_in_group_overflows` below); this is the only built-in renderable excluded;
-* table: "columns free to wrap" exactly as the statement says (no `width`, `min_width`, `no_wrap`, no active ratio).
+  `known_progressbar_in_group_overflows`), nor does a text with `end=""` (`excluded_open_member_in_group`);
+* table — any number of columns, also none; ratio columns included: columns free to wrap exactly as the statement says: no `width`
+  (`excluded_fixed_width_column`), no `min_width` (`excluded_min_width_column`), no `no_wrap` (`excluded_no_wrap_column`); in an
+  expanding table no `ratio=0` column (finding `table-ratio-zero-column`: `finding_ratio_zero_column_overflows`);
+* `Columns(width=…)`: `excluded_columns_width_zero` shows the bound failing for `width=0`; for `width ≥ 1` no counterexample is known
+  (evaluated directly on rich in every run) — NOT DISCHARGED: it needs the bound of `_calculate_column_widths` for fixed-width columns;
+* `Constrain` / `Align` render their child at a narrower width, which `Dom` asks to be at or above the child's structural minimum, and an
+  explicit `Table(width=tw)` must leave one cell per column — NOT DISCHARGED, no counterexample known (both are evaluated directly on
+  rich in every run): they would follow from "below its structural minimum a renderable is never wider than that minimum", which needs
+  `_calculate_column_widths` below one cell per column;
+* a rule under `overflow="ignore"` options — NOT DISCHARGED (the rule text is exactly `w` cells wide, so it fits; `text_fits` is stated
+  for overflow ≠ ignore).
 
-`CfgOk cfg`: the width function is rich's (`Gen.cellWidths`, regenerated from rich/_cell_widths.py on every run), tables draw
-`leading` as separate lines (fix dd342b5; what /repo contains), and the poison is empty (the model's "outside my domain" marker; the driver answers
-`unmodelled` for those requests, e.g. a panel title that is not a simple one-line text).
+`CfgOk cfg` asks three things only: the width function is rich's (`Gen.cellWidths`, regenerated from rich/_cell_widths.py on every run),
+tables draw `leading` as separate lines (`leadingRepeat = false`: with the as-found `true` a table line is `leading` times too wide, C07
+`old_table_rect_fails`), and the poison is empty (the model's "outside my domain" marker; the driver answers `unmodelled` for those
+requests, e.g. a panel title that is not a simple one-line text).  EVERY OTHER code variant is universally quantified: the theorems hold
+for all 2^4 frame variants, all 2^8 text/wrap variants and all 2^5 remaining table variants — in particular for the code as it is now
+(`nowCfg`: everything repaired) and for rich 9.10.0 as released apart from `leading`.
 -/
 namespace RichModel.C01
 open RichModel RichModel.Frames RichModel.Layout
@@ -67,36 +80,103 @@ theorem tree_fits_whatever_the_labels (cfg : Cfg) (ok : CfgOk cfg) (root : TNode
   have := tree_lines_le cfg.env (nodeR cfg root o) (w : Int)
   simpa using this
 
+/-- Side condition on the generated tables (re-checked on every run): the box constants of rich/box.py are listed in the same order, with
+the same characters and ASCII flags, in `Gen.boxes` (on whose indices C08 models `Box.substitute`) and `Gen.tableBoxes` (from which the
+table takes its box) — so the legacy-Windows / ASCII-only substitution of a table's box (`TableOpts.subst`) is the one rich performs. -/
+theorem table_boxes_same_order :
+    Gen.boxes.map (·.2) = Gen.tableBoxes.map (·.2.2) ∧ Gen.boxes.map (·.1) = Gen.tableBoxes.map (·.2.1) := by decide +kernel
+
 /-! ## The known finding F23 (`progressbar-no-newline`), machine-checked on the model -/
 
-/-- A configuration under a truecolor console for the witnesses and examples below.  It was written as "the code in /repo" before
-fixes f5f2be9 and f7ecf83 landed: `rstripCountsChars`, `columnsZeroCount` and `WVariant.fixed true` are still the as-found
-variants of those two defects (none of the statements below depends on them; `CfgOk` only asks for rich's width table, the repaired
-`leading` and an empty poison), and `Flags.repaired` repairs the first three table defects. -/
-def wCfg : Cfg :=
-  { cw := cwR, env := { consoleWidth := 80, colorSystem := 3 }, v := { zeroWidthChild := false, ruleRightRepeat := false, rstripCountsChars := true, columnsZeroCount := true }, wv := Wrap.WVariant.fixed true, fl := Flags.repaired }
+/-- the code as it is in /repo now (every repair applied), under a truecolor console -/
+def nowCfg : Cfg :=
+  { cw := cwR, env := { consoleWidth := 80, colorSystem := 3 }, v := { zeroWidthChild := false, ruleRightRepeat := false, rstripCountsChars := false, columnsZeroCount := false }, wv := Wrap.WVariant.repaired, fl := Flags.allRepaired }
+
+/-- rich 9.10.0 as released, except `leading` -/
+def releasedCfg : Cfg :=
+  { cw := cwR, env := { consoleWidth := 80 }, v := {}, wv := Wrap.WVariant.released, fl := { leadingRepeat := false } }
+
+example : CfgOk nowCfg := ⟨rfl, rfl, rfl⟩
+example : CfgOk releasedCfg := ⟨rfl, rfl, rfl⟩
 
 def wText (s : String) : R := .text (Text.new Variant.repaired s.toList [0])
 def wBar : R := .progressBar { total := ⟨100, 1⟩, completed := ⟨50, 1⟩, width := some 5 }
 
+/-- the cell widths of the lines of `Console.render(r, width=w)` on today's code -/
+def widthsOf (r : R) (w : Int) : List Nat := (renderedLines nowCfg r {} w).map (lineLength cwR)
+
 /-- `RenderGroup(ProgressBar(width=5), Text("ccc dd"))` at width 9: `ProgressBar` emits no line end, the text continues on the
 bar's line, which is 11 cells wide.  (The only thing `Dom` excludes here is "the bar is not the last member of the group".) -/
 theorem known_progressbar_in_group_overflows :
-    (renderedLines wCfg (.group true [wBar, wText "ccc dd"]) {} 9).map (lineLength cwR) = [11] ∧
-    smin cwR (.group true [wBar, wText "ccc dd"]) = 1 := by decide +kernel
+    widthsOf (.group true [wBar, wText "ccc dd"]) 9 = [11] ∧ smin cwR (.group true [wBar, wText "ccc dd"]) = 1 := by decide +kernel
 
 /-- the same two renderables the other way round are inside the domain and fit -/
-example : (renderedLines wCfg (.group true [wText "ccc dd", wBar]) {} 9).map (lineLength cwR) = [6, 5] := by decide +kernel
+example : widthsOf (.group true [wText "ccc dd", wBar]) 9 = [6, 5] := by decide +kernel
 
-/-! ## Non-vacuity: a nested tree inside the domain, at its structural minimum -/
+/-! ## The finding `table-ratio-zero-column` -/
+
+def wRatioZero : R :=
+  .table { box := some 15, expand := true }
+    [.mk { ratio := some 1 } (wText "a") (wText "") [wText "x"], .mk { ratio := some 0 } (wText "b") (wText "") [wText "y"],
+     .mk {} (wText "c") (wText "") [wText "long long long long long long long long text"]]
+
+/-- `Table(expand=True)` with columns `ratio=1`, `ratio=0` and an ordinary wide one: the `ratio=0` column is handed 0 cells
+(`max(0, width)`), the wide column is collapsed until the widths sum to the budget, and the re-measure then gives the 0-cell column one
+cell (`maximum or 1`): every line is ONE CELL TOO WIDE, at its structural minimum 13 and at every width at which the wide column still
+has to wrap (here also at 30).  Genuine defect of rich (all columns are free to wrap); repair: pending_fixes/C01-table-ratio-zero-column.diff. -/
+theorem finding_ratio_zero_column_overflows :
+    smin cwR wRatioZero = 13 ∧ (widthsOf wRatioZero 13).all (· == 14) = true ∧ (widthsOf wRatioZero 30).all (· == 31) = true := by
+  decide +kernel
+
+/-! ## Why each exclusion of `Dom` is there: the bound really fails -/
+
+/-- `overflow="ignore"`: the documented opt-out — `Text("abcdef", overflow="ignore")` at width 3 is 6 cells wide -/
+theorem excluded_overflow_ignore :
+    widthsOf (.text (Text.new Variant.repaired "abcdef".toList [0] [] none (some RichModel.Overflow.ignore))) 3 = [6] := by decide +kernel
+
+/-- an explicit `end`: `Text("abc", end="xyz")` at width 3 is 6 cells wide -/
+theorem excluded_text_end :
+    widthsOf (.text (Text.new Variant.repaired "abc".toList [0] [] none none none "xyz".toList)) 3 = [6] := by decide +kernel
+
+/-- a member of a group that does not end its line: `RenderGroup(Text("abc", end=""), Text("def"))` at width 3 is one line of 6 cells -/
+theorem excluded_open_member_in_group :
+    widthsOf (.group true [.text (Text.new Variant.repaired "abc".toList [0] [] none none none []), wText "def"]) 3 = [6] := by
+  decide +kernel
+
+def wTable2 (c1 : ColOpts) : R :=
+  .table { box := some 15 } [.mk c1 (wText "a") (wText "") [wText "hello world foo"], .mk {} (wText "b") (wText "") [wText "hello world"]]
+
+/-- the same two-column table with both columns free to wrap fits its structural minimum 9 exactly … -/
+example : smin cwR (wTable2 {}) = 9 ∧ (widthsOf (wTable2 {}) 9).all (· == 9) = true := by decide +kernel
+/-- … with `width=10` on the first column it is 13 cells wide at 12 (the free column is collapsed to 0 and gets a cell back) -/
+theorem excluded_fixed_width_column : (widthsOf (wTable2 { width := some 10 }) 12).all (· == 13) = true := by decide +kernel
+/-- … with `no_wrap=True` likewise -/
+theorem excluded_no_wrap_column : (widthsOf (wTable2 { noWrap := true }) 12).all (· == 13) = true := by decide +kernel
+/-- … with `min_width=8` it is 17 cells wide at 12 -/
+theorem excluded_min_width_column : (widthsOf (wTable2 { minWidth := some 8 }) 12).all (· == 17) = true := by decide +kernel
+
+/-- `Columns(width=0)`: five items at their structural minimum 9 (one column each, one cell of padding between) make a 10-cell line -/
+theorem excluded_columns_width_zero :
+    smin cwR (.columns { lay := { width := some 0 } } [wText "a", wText "b", wText "c", wText "d", wText "e"]) = 9 ∧
+    widthsOf (.columns { lay := { width := some 0 } } [wText "a", wText "b", wText "c", wText "d", wText "e"]) 9 = [10] := by decide +kernel
+
+/-! ## Non-vacuity: nested trees inside the domain, at their structural minimum -/
 
 /-- a panel with a title around a group of a text with a double-width character and a padded text -/
 def exTree : R :=
   .panel { box := 0, title := ['T'] } (.group true [wText "日本 abc", .padding ⟨0, 1, 0, 2⟩ true (wText "x y")])
 
-example : CfgOk wCfg := ⟨rfl, rfl, rfl⟩
 example : smin cwR exTree = 8 := by decide +kernel
-example : Dom wCfg exTree {} 8 := by rw [exTree, Dom]; trivial
-example : (renderedLines wCfg exTree {} 8).map (lineLength cwR) = [8, 8, 8, 8, 8, 8] := by decide +kernel
+example : Dom nowCfg exTree {} 8 := by rw [exTree, Dom]; trivial
+example : widthsOf exTree 8 = [8, 8, 8, 8, 8, 8] := by decide +kernel
+
+/-- a table without columns is in the domain: two corner characters per edge -/
+example : smin cwR (.table { box := some 15 } []) = 2 ∧ widthsOf (.table { box := some 15 } []) 2 = [2, 2] := by decide +kernel
+
+/-- an expanding table with active ratio columns is in the domain and fills its structural minimum exactly -/
+def exRatio : R :=
+  .table { box := some 15, expand := true }
+    [.mk { ratio := some 1 } (wText "a") (wText "") [wText "x"], .mk { ratio := some 2 } (wText "b") (wText "") [wText "yy yy yy"]]
+example : smin cwR exRatio = 9 ∧ (widthsOf exRatio 9).all (· == 9) = true := by decide +kernel
 
 end RichModel.C01
